@@ -483,7 +483,7 @@ func c05runReal(prog []*sx) string {
 var c05oracle = map[string]string{}
 var c05oracleErr string
 
-const c05chunk = 60
+const c05chunk = 120
 
 func c05parseOp(op string) (string, []*sx) {
 	f, rest, _ := strings.Cut(op, " ")
